@@ -17,7 +17,9 @@ from vlib import cZ, cN, cbool, clist, copt, cpair, cstr, cbytes
 
 ID = "C04"
 GO_PKG = "./api/handler"
-PKGS = {"parser": "./api/token", "jwt": "./api/handler", "sig": "./api/handler", "rpc": "./rpc/internal/auth"}
+PKGS = {"parser": ("./api/token", "^TestVerifDriver$"), "jwt": ("./api/handler", "^TestVerifDriver$"),
+        "sig": ("./api/handler", "^TestVerifDriver$"), "rpc": ("./rpc/internal/auth", "^TestVerifDriver$"),
+        "grp": ("./api", "^TestVerifDriverC04$"), "rpci": ("./rpc/internal/serverinterceptors", "^TestVerifDriverC04$")}
 
 _A = "api/handler/authhandler.go"
 _T = "api/token/tokenparser.go"
@@ -28,6 +30,7 @@ _R = "rpc/internal/auth/auth.go"
 _RV = "rpc/internal/auth/vars.go"
 _I = "rpc/internal/serverinterceptors/authinterceptor.go"
 _Q = "api/httpx/requests.go"
+_E = "api/engine.go"
 
 
 def _gen_spec():
@@ -51,7 +54,9 @@ def _gen_spec():
                        (_S, "VerifySignature", "verify_calls"), (_S, "ParseContentSecurity", "parse_cs_calls"),
                        (_S, "getPathQuery", "path_query_calls"), (_R, "Authenticator.Authenticate", "authenticate_calls"),
                        (_R, "Authenticator.validate", "validate_calls"), (_I, "UnaryAuthorizeInterceptor", "unary_calls"),
-                       (_I, "StreamAuthorizeInterceptor", "stream_calls")]:
+                       (_I, "StreamAuthorizeInterceptor", "stream_calls"),
+                       (_E, "engine.bindFeaturedRoutes", "bind_featured_calls"), (_E, "engine.bindRoutes", "bind_routes_calls"),
+                       (_E, "engine.signatureVerifier", "signature_verifier_calls")]:
         items.append({"kind": "calls", "file": f, "func": fn, "as": as_})
     items.append({"kind": "cases", "file": _H, "func": "ContentSecurityHandler", "as": "csh_methods"})
     items.append({"kind": "cases", "file": _A, "func": "Authorize", "as": "skipped_claims"})
@@ -110,9 +115,9 @@ def _gen_tokens(rng, secret, prev):
             claims[k] = rng.choice(vals)
         own = [x for x in (secret, prev) if x]
         t = {"alg": alg, "secret": rng.choice(own) if rng.random() < 0.85 else rng.choice(SECRETS), "claims": claims,
-             "exp": rng.choice([3600, 3600, 3600, 7200, 7200, 3600, 7200, -3600, None, None]),
-             "nbf": rng.choice([None] * 8 + [-3600, -3600, 3600]),
-             "iat": rng.choice([None] * 8 + [-3600, -3600, 3600]),
+             "exp": rng.choice([3600, 3600, 7200, 7200, 100, 100, 250, 40, -3600, None, None]),
+             "nbf": rng.choice([None] * 8 + [-3600, -3600, 3600, 60, 150]),
+             "iat": rng.choice([None] * 9 + [-3600, -3600, 3600, 30]),
              "mangle": "", "raw": "", "cut": 0}
         m = rng.random()
         if m < 0.04:
@@ -146,7 +151,10 @@ def _gen_reqs(rng, ntok, long_hist):
         scheme = "Bearer " if s < 0.78 else rng.choice(["bearer ", "BEARER ", "", "Basic ", "Bearer  ", "Bearer"])
         a = rng.random()
         adv = 0 if a < 0.86 else rng.choice([1, 30, 3600, 50000, 90000])
-        reqs.append({"tok": tok, "scheme": scheme, "advance": adv})
+        # the wall clock seen by the jwt library moves: tokens expire / become valid during the history
+        j = rng.random()
+        jadv = 0 if j < 0.86 else rng.choice([20, 45, 70, 120, 300, 3000])
+        reqs.append({"tok": tok, "scheme": scheme, "advance": adv, "jadv": jadv})
     return reqs
 
 
@@ -399,6 +407,47 @@ def gen_rpc(rng):
     return {"kind": "rpc", "strict": rng.random() < 0.5, "ops": ops}
 
 
+def gen_grp(rng):
+    """2-3 signature-protected route groups on one engine, each with its own fingerprint -> key table (fingerprints
+    may repeat ACROSS groups with different keys), strictness and tolerance; requests for each (fp, key) pair in use
+    are sent to every group"""
+    ng = rng.choice([2, 2, 3])
+    fps = ["fp-a", "fp-b", "fp-c"]
+    groups = []
+    for _ in range(ng):
+        nk = rng.choice([1, 1, 2])
+        gfps = rng.sample(fps, nk)
+        groups.append({"strict": rng.random() < 0.8, "tol": rng.choice([10, 100, 600]),
+                       "keys": [{"fp": f, "key": rng.randrange(3)} for f in gfps]})
+    pairs = sorted({(k["fp"], k["key"]) for g in groups for k in g["keys"]})
+    pairs += [(rng.choice(fps), rng.randrange(3))]
+    reqs = []
+    for fp, key in pairs:
+        for gi in range(ng):
+            t = rng.random()
+            reqs.append({"group": gi, "fp": fp, "enckey": key, "hmackey": rng.choice(KEYS),
+                         "tsoff": rng.choice([0, 0, 0, 1, -2, 50, -50, 700]),
+                         "method": rng.choice(["POST", "POST", "GET", "PUT", "DELETE"]),
+                         "query": rng.choice(["", "x=1", "a=1&b=2"]), "body": rng.choice(["", "hi", "payload-1"]),
+                         "tamper": "" if t < 0.85 else rng.choice(["body", "query"])})
+    rng.shuffle(reqs)
+    return {"kind": "grp", "groups": groups, "reqs": reqs}
+
+
+METHODS = ["/pkg.Svc/Do", "/a.b.c.Deep/Call", "/x.Y/Check", "/x.Y/Watch", "/grpc.health.v1.Health/Check",
+           "/grpc.health.v1.Health/Watch", "", "/", "noslash", "/grpc.reflection.v1alpha.ServerReflection/ServerReflectionInfo"]
+
+
+def gen_rpci(rng):
+    c = gen_rpc(rng)
+    c["kind"] = "rpci"
+    for op in c["ops"]:
+        if op["op"] == "call":
+            op["mode"] = rng.choice(["unary", "stream"])
+            op["method"] = rng.choice(METHODS)
+    return c
+
+
 def generate(rng, tier, n):
     cases = []
     if tier == "thorough":
@@ -419,14 +468,18 @@ def generate(rng, tier, n):
                     cases.append(c)
     for _ in range(n):
         r = rng.random()
-        if r < 0.22:
+        if r < 0.2:
             cases.append(gen_parser(rng))
-        elif r < 0.42:
+        elif r < 0.4:
             cases.append(gen_jwt(rng))
-        elif r < 0.85:
+        elif r < 0.76:
             cases.append(gen_sig(rng))
-        else:
+        elif r < 0.84:
+            cases.append(gen_grp(rng))
+        elif r < 0.91:
             cases.append(gen_rpc(rng))
+        else:
+            cases.append(gen_rpci(rng))
     return cases
 
 
@@ -451,6 +504,23 @@ def search(rng, problems):
         p = gen_parser(rng)
         p["secret"], p["prev"] = SECRETS[0], SECRETS[1]
         out.append(p)
+    for _ in range(25):
+        out.append(gen_grp(rng))
+        out.append(gen_rpci(rng))
+    for _ in range(25):
+        # one token through one instance while the clock passes its exp / reaches its nbf
+        c = gen_jwt(rng)
+        c["secret"], c["prev"] = SECRETS[0], rng.choice(["", SECRETS[1]])
+        c["tokens"] = [{"alg": "HS256", "secret": SECRETS[0], "claims": {"uid": 1}, "exp": 100, "nbf": rng.choice([None, 40]),
+                        "iat": None, "mangle": "", "raw": "", "cut": 0}]
+        c["reqs"] = [{"tok": 0, "scheme": "Bearer ", "advance": 0, "jadv": j} for j in [0, 0, 30, 30, 30, 30, 0, 3000]]
+        out.append(c)
+    for strict in (False, True):
+        out.append({"kind": "rpci", "strict": strict, "ops": [
+            {"op": "set", "app": "app-a", "token": "t-one"}] + [
+            {"op": "call", "mode": mode, "method": m, "nomd": False, "apps": ["app-a"], "tokens": [tk]}
+            for m in METHODS for mode in ("unary", "stream") for tk in ("t-two", "t-one")][:40] + [
+            {"op": "call", "mode": "unary", "method": "/grpc.health.v1.Health/Check", "nomd": True}]})
     for strict in (False, True):
         out.append({"kind": "rpc", "strict": strict, "ops": [
             {"op": "set", "app": "app-a", "token": "t-one"},
@@ -468,10 +538,10 @@ def drive(cases, tier):
     by_pkg = {}
     for i, c in enumerate(cases):
         by_pkg.setdefault(PKGS[c["kind"]], []).append(i)
-    for pkg, idx in sorted(by_pkg.items()):
+    for (pkg, run), idx in sorted(by_pkg.items()):
         sub = [cases[i] for i in idx]
-        name = "C04_%s_%s" % (tier[0], pkg.strip("./").replace("/", "_"))
-        o, lg = vlib.run_driver(pkg, sub, name=name, timeout=DRIVER_TIMEOUT)
+        name = "C04_%s_%s%s" % (tier[0], pkg.strip("./").replace("/", "_"), "_c04" if "C04" in run else "")
+        o, lg = vlib.run_driver(pkg, sub, name=name, timeout=DRIVER_TIMEOUT, run=run)
         logs.append(lg[-2000:])
         if o is None:
             return None, "\n".join(logs)
@@ -515,9 +585,10 @@ def _verdict(v, intern):
 
 def _jtable(obs, intern):
     rows = []
-    for hi, per in enumerate(obs["oracle"]):
-        for s in SECRETS:
-            rows.append(cpair(cpair(cN(SID[s]), cN(hi + 1)), _verdict(per[s], intern)))
+    for ti, per_t in enumerate(obs["oracle"]):
+        for hi, per in enumerate(per_t):
+            for s in SECRETS:
+                rows.append(cpair(cpair(cpair(cN(ti), cN(SID[s])), cN(hi + 1)), _verdict(per[s], intern)))
     return clist(rows)
 
 
@@ -526,7 +597,7 @@ def enc_parser(case, obs):
     rows = []
     for r in obs["rows"]:
         counts = clist([cpair(cN(SID[x["secret"]]), cN(x["count"])) for x in r["counts"]])
-        rows.append("(mkprow %s %s %s %s %s)" % (cZ(r["now"]), cN(r["header"] + 1), cbool(r["ok"]), cbool(r["valid"]), counts))
+        rows.append("(mkprow %s %s %s %s %s %s)" % (cZ(r["now"]), cZ(r["jt"]), cN(r["header"] + 1), cbool(r["ok"]), cbool(r["valid"]), counts))
     return "CParser (mkpc %s %s %s %s %s %s %s)" % (
         cN(SID[case["secret"]]), cN(SID[case["prev"]]), cZ(obs["reset_time"]), cZ(obs["reset_dur"]),
         cbool(case["reset"] is None), _jtable(obs, intern), clist(rows))
@@ -540,7 +611,7 @@ def enc_jwt(case, obs):
     for rq, r in zip(case["reqs"], obs["rows"]):
         now += rq["advance"] * 10 ** 9
         ctx = clist([cpair(cstr(k), cN(intern(r["ctx"][k]))) for k in sorted(r["ctx"].keys())])
-        rows.append("(mkjrow %s %s %s %s %s %s)" % (cZ(now), cN(r["header"] + 1), cZ(r["status"]), cbool(r["ran"]), ctx, cbool(r["cb"])))
+        rows.append("(mkjrow %s %s %s %s %s %s %s)" % (cZ(now), cZ(r["jt"]), cN(r["header"] + 1), cZ(r["status"]), cbool(r["ran"]), ctx, cbool(r["cb"])))
     cb = {"none": "CbNone", "observe": "CbSilent", "status": "(CbStatus 418%Z)"}[case["callback"]]
     return "CJwt (mkjc %s %s %s %s %s %s)" % (cN(SID[case["secret"]]), cN(SID[case["prev"]]), cb, cZ(START_NS), table, clist(rows))
 
@@ -618,6 +689,46 @@ def enc_rpc(case, obs):
             md = "(Some %s)" % cpair(clist([cN(sid(a)) for a in (op.get("apps") or [])]), clist([cN(sid(t)) for t in (op.get("tokens") or [])]))
         steps.append("(mkrs %s %s %s %s)" % (cbool(down), st, md, cZ(row["code"])))
     return "CRpc (mkrc %s %s)" % (cbool(case["strict"]), clist(steps))
+
+
+def enc_grp_row(case, rq, o):
+    """one request of a group case as a Coq grp_case"""
+    groups = clist(["(mkg %s %s %s)" % (clist([cpair(B(k["fp"]), cN(k["key"])) for k in g["keys"]]), cbool(g["strict"]), cZ(g["tol"]))
+                    for g in case["groups"]])
+    rsa = clist([cpair(cpair(cN(i), B(o["secret"])), optB(r)) for i, r in enumerate(o["rsa"])])
+    key = base64.b64decode(o["keybytes"])
+    req = "(mkr %s %s %s %s %s %s %s)" % (B(o["method"]), B(o["path"]), B(o["query"]), B(""), B(o["header"]), B(rq["body"]), cZ(o["clen"]))
+    b64 = clist([cpair(B(rq["hmackey"]), copt(cbytes(key))), cpair(B(""), copt(cbytes(b"")))])
+    mac = clist([cpair(cpair(cbytes(key), B(o["sentcontent"])), B(o["sentmac"])), cpair(cpair(cbytes(key), B(o["signcontent"])), B(o["signmac"]))])
+    sha = clist([cpair(B(rq["body"]), B(o["sha"]))])
+    ts = go_parse_int(o["ts"])
+    q = "(mkq true %s %s %s %s %s %s %s %s)" % (cbytes(key), B(o["ts"]), copt(None if ts is None else cZ(ts)), B(o["sig"]),
+                                               B(o["method"]), B(o["path"]), B(o["query"]), B(rq["body"]))
+    hdr = {"": 0, "wrong-time": 1, "invalid": 2}.get(o["sighdr"], 9)
+    sig = "(mksc false 0%%Z %s %s [] %s [] %s %s %s None DecErr %s false false %s %s %s %s)" % (
+        cZ(o["now0"]), cZ(o["now1"]), req, b64, mac, sha, q, cZ(o["status"]), cbool(o["ran"]), cN(hdr), cbool(o["panic"]))
+    return "CGrp (mkgc %s %s %s %s %s %s)" % (groups, "%d%%nat" % rq["group"], rsa, B(rq["fp"]), cN(rq["enckey"]), sig)
+
+
+def enc_rpci(case, obs):
+    ids = {"": 0}
+
+    def sid(s):
+        if s not in ids:
+            ids[s] = len(ids)
+        return ids[s]
+    mids = {}
+    steps = []
+    for (down, store, op), row in zip(rpc_steps(case), obs["rows"]):
+        st = clist([cpair(cN(sid(a)), cN(sid(t))) for a, t in sorted(store.items())])
+        if op.get("nomd"):
+            md = "None"
+        else:
+            md = "(Some %s)" % cpair(clist([cN(sid(a)) for a in (op.get("apps") or [])]), clist([cN(sid(t)) for t in (op.get("tokens") or [])]))
+        m = mids.setdefault(op["method"], len(mids))
+        steps.append("(mkis (mkrs %s %s %s %s) %s %s %s)" % (cbool(down), st, md, cZ(row["code"]),
+                                                            "Stream" if op["mode"] == "stream" else "Unary", cN(m), cbool(row["ran"])))
+    return "CRpcI (mkri %s %s)" % (cbool(case["strict"]), clist(steps))
 
 
 # a gate that panics neither accepts nor refuses properly: encoded as a case both checkers reject
